@@ -245,8 +245,9 @@ def _ob_prepare(ex):
     n = z3.Int("N")
     st.pc += [n >= 1, n <= 1000]
     from obl_wal import wal_manager
-    wm = VRef(st.alloc(VStruct("WalManager", [VInt(n, "u64"), VInt(1, "u64"),
-                                              VStruct("SegmentStorage", [VStruct("DbPaths", [VOpaque("dbpaths")])]), none()])))
+    from structs import mk
+    wm = VRef(st.alloc(mk(ex, st, "WalManager", num_ops_per_wal=VInt(n, "u64"), next_op_version=VInt(1, "u64"),
+                          storage=VStruct("SegmentStorage", [VStruct("DbPaths", [VOpaque("dbpaths")])]), active_writer=none())))
     fn = find_fn(ex, "::replay_and_prepare", "wal::manager")
     ex.start(st, fn, [wm, sym_option(disk.c != 0, VInt(disk.c, "u64")), VOpaque("collector")])
     finals = ex.run(st)
@@ -260,7 +261,8 @@ def _ob_prepare(ex):
             r, m = ex.model_of(f.pc)
             return Obligation(name, ["C02", "C20"], "violated", time.time() - t0, f"{f.status}: {f.note}", model_values(m, terms) if m else None,
                               ex.queries - q0, len(finals))
-        nxt = f.load(wm).fields[1].t
+        from structs import fget
+        nxt = fget(ex, f.load(wm), "WalManager", "next_op_version").t
         hi = z3.If(disk.vers[0] > disk.c, disk.vers[0], disk.c)
         posts = {"C20 next_op_version = highest version seen + 1 (never reuses a version)": nxt == hi + 1}
         created = [e for e in f.trace if e["kind"] == "io" and e["op"] == "open" and e["path"][0] == "wal" and e.get("flags", {}).get("create")]
@@ -300,8 +302,9 @@ def _ob_commit_checkpoint(ex, N):
     ex.models.reg("SegmentStorage::discover_segments", m_discover_segments(ex.models.io_hook))
     v, last, nxt = z3.Int("ckpt_version"), z3.Int("last_ckpt"), z3.Int("next")
     st.pc += [v >= 1, v <= U64 - 2, last >= 0, last <= U64 - 2, nxt > v, nxt <= U64 - 1]
-    wm = VRef(st.alloc(VStruct("WalManager", [VInt(N, "u64"), VInt(nxt, "u64"),
-                                              VStruct("SegmentStorage", [VStruct("DbPaths", [VOpaque("dbpaths")])]), none()])))
+    from structs import mk
+    wm = VRef(st.alloc(mk(ex, st, "WalManager", num_ops_per_wal=VInt(N, "u64"), next_op_version=VInt(nxt, "u64"),
+                          storage=VStruct("SegmentStorage", [VStruct("DbPaths", [VOpaque("dbpaths")])]), active_writer=none())))
     fn = find_fn(ex, "::commit_checkpoint", "wal::manager")
     ex.start(st, fn, [wm, VInt(v, "u64"), sym_option(last != 0, VInt(last, "u64"))])
     finals = ex.run(st)
